@@ -12,7 +12,7 @@ from vt.gen import c01_gen as G
 PID = "C01"
 LEVEL = "exploration"
 TECHNIQUE = ("outcome classifier over grammar-generated, token-mutated and bounded-exhaustive "
-             "sources x 9 environment configurations, with a SIGALRM per-case watchdog")
+             "sources x 9 environment configurations, with a per-case CPU-time watchdog (SIGPROF, wall-clock SIGALRM backstop)")
 RULE = ("cases = (config, source): (a) grammar-generated templates (expressions, if/for/set/with/"
         "macro/call/filter/block/extends/include/import/raw/comments/trans/autoescape/do/break/"
         "continue/debug, line statements, whitespace control, Unicode names) + deterministic "
@@ -28,7 +28,8 @@ LEVEL_TEXT = ("held (modulo listed known findings) on K (config, source) executi
               "3/4, random beyond; not all Unicode strings")
 ASSUMPTIONS = [
     "only load-time totality: templates are not rendered",
-    "hang = a case exceeding the per-case budget that still exceeds 10x the budget in 3 solo re-runs; "
+    "hang = a case exceeding the per-case CPU budget (1.5 s, ITIMER_PROF; wall-clock backstop 20x) that "
+    "still exceeds 10x the budget in 3 solo re-runs; "
     "a C-level loop that never checks signals would surface as a shard watchdog (INCONCLUSIVE)",
     "nesting depth bounded (<=24 statement levels, <=40 expression levels): RecursionError "
     "beyond that is not claimed",
@@ -36,18 +37,21 @@ ASSUMPTIONS = [
 ]
 NSHARDS = {"quick": 16, "thorough": 16}
 BUDGET_S = {"quick": 20, "thorough": 540}
+# a confirmed hang costs ~31x the case budget in CPU time; on a heavily loaded
+# machine that stretches, so the parent's hard kill is generous
+HARD_TIMEOUT_S = {"quick": 900, "thorough": 4000}
 FLOORS = {
     "quick": {"evaluations": 25000, "distinct": 8000,
               "counters": {"ok": 8000, "tse": 8000, "gen_cases": 1000, "mut_cases": 4000,
                            "exh_cases": 15000, "ladder_cases": 400, "corner_cases": 2500,
                            "raw_compile_ok": 5000, "lineno_checked": 8000}},
-    "thorough": {"evaluations": 900000, "distinct": 150000,
-                 "counters": {"ok": 150000, "tse": 300000, "gen_cases": 20000, "mut_cases": 60000,
-                              "exh_cases": 800000, "ladder_cases": 400, "corner_cases": 2500,
-                              "raw_compile_ok": 150000, "lineno_checked": 300000}},
+    "thorough": {"evaluations": 300000, "distinct": 60000,
+                 "counters": {"ok": 60000, "tse": 100000, "gen_cases": 5000, "mut_cases": 20000,
+                              "exh_cases": 250000, "ladder_cases": 400, "corner_cases": 2500,
+                              "raw_compile_ok": 20000, "lineno_checked": 100000}},
 }
 
-CASE_BUDGET = {"quick": 2.0, "thorough": 3.0}
+CASE_BUDGET = {"quick": 1.5, "thorough": 2.0}   # CPU seconds per case
 _nl_re = re.compile(r"\r\n|\r|\n")
 
 
@@ -144,14 +148,32 @@ def classify(env, src, raw=True):
     return "ok", None, None
 
 
+WALL_FACTOR = 20
+
+
+def arm_handlers():
+    signal.signal(signal.SIGALRM, _on_alarm)
+    signal.signal(signal.SIGPROF, _on_alarm)
+
+
 def guarded(env, src, budget, raw=True):
+    """budget is CPU seconds of this process (ITIMER_PROF: immune to a loaded
+    machine); a wall-clock timer of WALL_FACTOR x budget backs it up for
+    hangs that do not burn CPU."""
     try:
-        signal.setitimer(signal.ITIMER_REAL, budget)
+        signal.setitimer(signal.ITIMER_PROF, budget)
+        signal.setitimer(signal.ITIMER_REAL, budget * WALL_FACTOR)
         try:
             return classify(env, src, raw)
         finally:
+            signal.setitimer(signal.ITIMER_PROF, 0)
             signal.setitimer(signal.ITIMER_REAL, 0)
     except Watchdog:
+        try:
+            signal.setitimer(signal.ITIMER_PROF, 0)
+            signal.setitimer(signal.ITIMER_REAL, 0)
+        except Watchdog:
+            pass
         return "watchdog", None, None
 
 
@@ -168,7 +190,8 @@ def evaluate(ctx, cfg, src, family, budget, meta=None, raw=True):
             else:
                 out = out2
         if stuck == 3:
-            out, key, detail = "viol", "hang", f"no result within {budget * 10:.0f}s in 3 solo re-runs"
+            out, key, detail = "viol", "hang", \
+                f"no result within {budget * 10:.0f} CPU-seconds in 3 solo re-runs"
             ctx.extra["confirmed_hangs"] = ctx.extra.get("confirmed_hangs", 0) + 1
         elif out == "watchdog":
             out = "noise"
@@ -217,7 +240,7 @@ def _run(ctx):
 
     # SyntaxWarning from compiling generated code is not a rejection
     warnings.simplefilter("ignore")
-    signal.signal(signal.SIGALRM, _on_alarm)
+    arm_handlers()
     quick = ctx.tier == "quick"
     budget = CASE_BUDGET[ctx.tier]
     cfgs = G.CONFIG_NAMES
@@ -243,14 +266,17 @@ def _run(ctx):
             ctx.dist((cfg, out, G.shape(src)))
 
     # ------------------------------------------ (c) exhaustive short strings
+    # length-major so that a time-box cut only loses the longest strings
     L = 3 if quick else 4
-    t_exh = ctx.budget_s * (0.45 if quick else 0.5)
+    t_exh = ctx.budget_s * 0.6
     complete = True
+    done_len = 0
     n = 0
-    for cfg in cfgs:
-        dl = delims[cfg]
-        alpha = G.alphabet_for(dl)
-        for length in range(1, L + 1):
+    alphas = {cfg: G.alphabet_for(delims[cfg]) for cfg in cfgs}
+    for length in range(1, L + 1):
+        for cfg in cfgs:
+            dl = delims[cfg]
+            alpha = alphas[cfg]
             for tup in itertools.product(range(len(alpha)), repeat=length):
                 idx += 1
                 if not ctx.mine(idx):
@@ -258,13 +284,12 @@ def _run(ctx):
                 src = "".join(alpha[i] for i in tup)
                 n += 1
                 # from_string already ran Python's compile(); the separate
-                # raw-source compile is repeated on a quarter (quick) of them
-                out = evaluate(ctx, cfg, src, "exhaustive", budget,
-                               raw=(not quick) or n % 4 == 0)
+                # raw-source compile is repeated on a quarter of them
+                out = evaluate(ctx, cfg, src, "exhaustive", budget, raw=n % 4 == 0)
                 ctx.count("exh_cases")
                 if has_delim(dl, src):
                     ctx.dist((cfg, out, G.shape(src)))
-                if n % 2000 == 0 and ctx.elapsed() > t_exh * 3:
+                if n % 1000 == 0 and ctx.elapsed() > t_exh:
                     complete = False
                     break
             if not complete:
@@ -272,7 +297,9 @@ def _run(ctx):
         if not complete:
             ctx.count("exhaustive_cut")
             break
-    ctx.extra["exhaustive_max_length_complete"] = L if complete else 0
+        done_len = length
+    # summed over shards by the harness: 16*L when every shard finished
+    ctx.extra["exhaustive_complete_length_sum_over_shards"] = done_len
     if complete:
         ctx.count("exhaustive_complete_shards")
     if not quick:
@@ -328,7 +355,7 @@ def _run(ctx):
 
 
 def replay(ctx, case):
-    signal.signal(signal.SIGALRM, _on_alarm)
+    arm_handlers()
     src = case["src"]
     if isinstance(src, dict) and "$surrogate" in src:
         src = bytes.fromhex(src["$surrogate"]).decode("utf-8", "surrogatepass")
